@@ -35,13 +35,16 @@ func c20Alphabet() []c20Op {
 			for _, sz := range []int{0, 1, 2, c20Limit, c20Limit + 1} {
 				ops = append(ops, c20Op{kind: "append", s: s, t: t, size: sz, display: fmt.Sprintf("Append(s%d,t%d,%dB)", s, t, sz)})
 			}
-			for _, i := range []int{-1, 0, 1, 2, -2, math.MaxInt} {
+			for _, i := range []int{-1, 0, 1, 2, -2, math.MaxInt, -5, math.MinInt} {
 				name := fmt.Sprint(i)
 				if i == -2 {
 					name = "last"
 				}
 				if i == math.MaxInt {
 					name = "MaxInt"
+				}
+				if i == math.MinInt {
+					name = "MinInt"
 				}
 				ops = append(ops, c20Op{kind: "after", s: s, t: t, idx: i, display: fmt.Sprintf("After(s%d,t%d,%s)", s, t, name)})
 			}
@@ -169,9 +172,17 @@ func c20Run(ops []c20Op, hist []int) verifx.SearchResult {
 			if partial {
 				return bad("after-partial-then-error", "%s yielded %d items and then error %v", op.display, n-1, gerr)
 			}
+			// everything appended after position idx (for idx < -1 that is everything, as for -1)
+			from := 0
+			if idx >= 0 {
+				from = idx + 1
+				if idx == math.MaxInt {
+					from = math.MaxInt
+				}
+			}
 			want := [][]byte{}
-			if idx+1 < len(m.appended[k]) && idx+1 >= 0 {
-				want = m.appended[k][idx+1:]
+			if from < len(m.appended[k]) {
+				want = m.appended[k][from:]
 			}
 			switch {
 			case !m.open[k]:
@@ -185,7 +196,7 @@ func c20Run(ops []c20Op, hist []int) verifx.SearchResult {
 				}
 				obs = "after:purged"
 				// admissible only if something after idx really is gone (checked against private state below)
-				if firstBefore < 0 || idx >= firstBefore-1 {
+				if firstBefore < 0 || from >= firstBefore {
 					return bad("after-spurious-purged", "%s reported ErrEventsPurged although every item after index %d was retained (first=%d)", op.display, idx, firstBefore)
 				}
 			default:
